@@ -59,7 +59,17 @@ ASSUMPTIONS = [
     "the property only speaks about objects that do compare equal",
 ]
 
-SCORES = {"quick": [0.0, 0.25, 1.0], "thorough": [0.0, 0.25, 1.0, 0.1]}
+ALL_SCORES = [0.0, 0.25, 1.0, 0.1]  # 0.1 is not a float32 value: exercises the declared float32 rounding
+SCORES = {"quick": [0.0, 0.25, 1.0], "thorough": ALL_SCORES}
+SCORES_LONGEST = {"thorough": [0.25, 1.0]}  # score alphabet for lists of the maximal length in the thorough tier
+
+
+def scores_for(tier, length):
+    if tier == "thorough" and length == MAXLEN[tier]:
+        return SCORES_LONGEST[tier]
+    return SCORES[tier]
+
+
 UNIVERSE_N = {"quick": 5, "thorough": 6}
 MAXLEN = {"quick": 3, "thorough": 4}
 N_BLOCKS_1 = {"quick": 48, "thorough": 96}
@@ -105,9 +115,9 @@ def universe_ctx():
         eq = [[bool(a == b) for b in uni] for a in uni]
         pt = {}
         for i, t in enumerate(uni):
-            for s in SCORES["thorough"]:
+            for s in ALL_SCORES:
                 pt[(i, s)] = data.PredictedTag(tag=t, score=s)
-        f32 = {s: float(np.float32(s)) for s in SCORES["thorough"]}
+        f32 = {s: float(np.float32(s)) for s in ALL_SCORES}
         _CTX = (uni, eq, pt, f32)
     return _CTX
 
@@ -141,8 +151,8 @@ def bounds(tier):
         "vocabularies_distinct": sum(1 for v in vocs if M.distinct(eq, v)),
         "max_list_length": MAXLEN[tier],
         "tag_lists": len(all_lists(n, MAXLEN[tier])),
-        "scores": SCORES[tier],
-        "predicted_lists": sum((n * len(SCORES[tier])) ** k for k in range(MAXLEN[tier] + 1)),
+        "scores_by_list_length": {str(k): scores_for(tier, k) for k in range(MAXLEN[tier] + 1)},
+        "predicted_lists": sum((n * len(scores_for(tier, k))) ** k for k in range(MAXLEN[tier] + 1)),
         "hash_pool_size": len(pool),
         "hash_pool_per_class": per_class,
         "hash_pool_variants": "base + every single-field variant" + (" + every two-field variant" if tier == "thorough" else ""),
@@ -680,7 +690,6 @@ def run_block(block, rec):
         _, EQ, _, _ = universe_ctx()
         n = UNIVERSE_N[tier]
         lists = all_lists(n, MAXLEN[tier])
-        scores = SCORES[tier]
         for vi, vocab in enumerate(all_vocabs(n)):
             if vi % block["of"] != block["shard"]:
                 continue
@@ -690,7 +699,7 @@ def run_block(block, rec):
                 continue
             rec.count("vocabularies_distinct")
             for tags in lists:
-                rec.add(run_case({"space": "lists", "vocab": vocab, "tags": tags, "scores": scores}))
+                rec.add(run_case({"space": "lists", "vocab": vocab, "tags": tags, "scores": scores_for(tier, len(tags))}))
     else:
         pool = build_pool(tier)
         for i, A in enumerate(pool):
